@@ -730,6 +730,13 @@ impl VSession {
         out
     }
 
+    /// output handles of the receiver links created through this facade
+    pub fn receiver_handles(&self) -> Vec<u32> {
+        let mut v: Vec<u32> = self.receivers.keys().cloned().collect();
+        v.sort();
+        v
+    }
+
     pub fn drain_sender_frames(&mut self, output_handle: u32) -> Vec<String> {
         let mut out = Vec::new();
         if let Some(l) = self.senders.get_mut(&output_handle) {
